@@ -160,9 +160,13 @@ Theorem C03_nofix_differs_only_on_decrease :
   forall st l, (forall n t, l = RApplySettings n t -> k_init st <= n) -> rstep_nofix st l = rstep st l.
 Proof. exact rstep_nofix_same. Qed.
 
-(* the hypotheses are satisfiable and the conclusions are not vacuous *)
-Theorem C03_nonvacuous :
-  Forall rlabel_ok rdemo_labels /\
+(* the hypotheses are satisfiable and the conclusions are not vacuous: a concrete history with
+   padding, releases, both kinds of WINDOW_UPDATE, DATA on an unknown stream, a SETTINGS decrease and
+   increase, a target change, a stream error, a dropped handle and a closed stream *)
+Theorem C03_nonvacuous_labels : Forall rlabel_ok rdemo_labels.
+Proof. exact rdemo_labels_ok. Qed.
+
+Theorem C03_nonvacuous_run :
   match rrun rinit_state rdemo_labels with
   | inl (Some (st, outs)) =>
       rno_conn_err outs = true /\
@@ -170,18 +174,27 @@ Theorem C03_nonvacuous :
       k_win st = RDEFAULT + conn_ledger rdemo_labels outs /\
       k_infl st = 0 /\ k_avail st = 100000
   | _ => False
-  end /\
+  end.
+Proof. exact rdemo_runs. Qed.
+
+(* a reachable record satisfying the hypotheses of C03_restores that is queued for its WINDOW_UPDATE *)
+Theorem C03_nonvacuous_restores :
   match rrun rinit_state rdemo_prefix with
   | inl (Some (st, outs)) =>
       exists s, In s (k_strs st) /\ r_id s = 1%N /\ r_isrecv s = true /\ r_done s = false /\
                 r_unl s = false /\ r_infl s = 0 /\ r_pend s = true /\
                 unclaimed (r_win s) (r_avail s) = Some 30000
   | _ => False
-  end /\
+  end.
+Proof. exact rdemo_restores_queued. Qed.
+
+(* with the repair, the history of C03_fix_needed queues the stream and its WINDOW_UPDATE restores
+   the window to the new configured size *)
+Theorem C03_fix_repairs :
   match rrun rinit_state (f1_labels ++ [RStreamWUPop 1 true]) with
   | inl (Some (st, outs)) =>
       rno_conn_err outs = true /\ concat outs = [RWU 1 20000] /\
       rfind 1%N (k_strs st) = Some (mkR 1 10000 10000 0 false true 10000 false false)
   | _ => False
   end.
-Proof. exact (conj rdemo_labels_ok (conj rdemo_runs (conj rdemo_restores_queued f1_fixed))). Qed.
+Proof. exact f1_fixed. Qed.
